@@ -277,7 +277,7 @@ impl Prop for C15 {
     fn timeout_secs(&self) -> u64 { 60 }
 
     fn gen(&self, tier: Tier, rng: &mut Rng) -> Vec<Case> {
-        let scale = if tier == Tier::Quick { 1 } else { 15 };
+        let scale = if tier == Tier::Quick { 3 } else { 15 };
         let mut out = vec![];
         // (a) every scalar value, in chunks of 4096
         let mut lo = 0u32;
